@@ -53,6 +53,15 @@ CHECKS = {
  "C16": ("exploration", "folding monitor over post-change notifications compared with the reference model after every step; snapshot re-hash for resolved-entry notifications; 4 hook/NI creation orders",
          "A consumer registered through rib.SetPostChangeHook / server.WithPostChangeRIBHook folds ADD/DELETE notifications; after every step of generated histories (Modify-like ops, held-op resolution, flushes) the fold must equal the model in every NI, in four configurations of hook registration vs NI creation. Resolved-entry snapshots are hashed on receipt and re-hashed at the end.",
          "trusted: model + canonicaliser; resolved-entry callbacks are asynchronous: a run whose callbacks do not all arrive is inconclusive", "4 C16"),
+ "C17": ("exploration", "differential oracle: each chk helper run on a capturing testing.TB against a direct field-by-field specification over generated result lists / Get responses / client errors, wants biased to one-aspect near-misses",
+         "Tens of thousands of generated inputs per run for HasResult, HasResultsCache, GetResponseHasEntries, HasNSendErrors/HasNRecvErrors and HasRecvClientErrorWithStatus, over every entry kind and option combination, with about half of the wanted items absent by construction (other status, other id, same key of another kind or network instance, absent key, other type, key-less details); the helper must fail exactly when the specification says the item is absent, the cached checker must never pass where the plain one fails and must agree with it when keys are unique.",
+         "trusted: the direct specifications in harness/c17; nil-versus-empty protobuf pairs are not generated", "4 C17"),
+ "C18": ("exploration", "differential oracle: random programs of fluent builder calls interpreted by the real builders and by an expectation constructed from the call log; client programs through a recording stub stream with deep copies taken at capture",
+         "Random call sequences over every With*/Add* method of every builder (repeats, any order, OpProto() taken mid-program) must yield exactly the message the calls specify; client programs of Add/Replace/DeleteEntry and UpdateElectionID with reused and re-modified builders must put ids 1,2,3.. , the requested operation type and the most recently set election id (or the entry's own) on the wire, and no queued message may change after it was queued.",
+         "trusted: the expectation builder in harness/c18 (last call wins at the documented granularity)", "4 C18"),
+ "C19": ("exploration", "re-execution of the compliance suite on long-lived reference servers in seeded permutations and configurations with a fatal-capturing testing.TB; fault enumeration over a catalogue of traffic-rewriting proxies (single-requirement faulty servers) whose designated tests must fail",
+         "The whole suite runs in random orders on one long-lived in-memory server per configuration (election base 1 .. 2^63-2^20, renamed and unicode network-instance names): every non-skipped test must pass. Twenty proxies around the reference server each break one protocol requirement (misreported election id, accepted zero id, failed idempotent delete, REPLACE of a missing entry accepted, no implicit replace, stale / incomplete Get, ignored / over-eager / unauthorised Flush, repeated or differing parameters accepted, leaked results, unknown network instance accepted, forward references mishandled, non-primary operations acknowledged, omitted FIB acks, multi-field messages accepted): every test written for that requirement must fail while a control sample still passes.",
+         "trusted: the proxies' faithfulness (control tests); compliance tests are run sequentially per process because the suite keeps its election id in a package-level counter", "4 C19"),
 }
 NOT_YET = "check not built yet in this session (planned, see DESIGN.md section 4); not claimed until it exists"
 
